@@ -20,7 +20,7 @@ func init() {
 	ev.Register(&ev.Check{
 		ID:             "C17",
 		Level:          "exploration",
-		Rule:           "(a) rendering: ALL file contents of length 0..7 (thorough 8) over {a,space,tab,LF,CR} x ALL positions inside the file through the public errors.NewDocumentError+SetIndex: Line(), SourceSubString(), Error() must not panic for any content, and for consistently terminated files must equal the reference renderer (1-based line, left-trimmed text, caret column); line-length families around the 200-byte truncation x LF/CR/CRLF x boundary positions; ONE error value rendered at p1, moved to p2 with SetIndex and rendered again must show what a fresh error at p2 shows (all contents <= 5 (6) bytes x all position pairs). (b) parsing positions: BFS over the reference PDA's states (nesting <= 4) and all strings <= 4 symbols: for every live w and symbol c with w.c dead the library's error position must be |w|, for every live non-accepting w the end-of-input error position must be |w|-1. (c) validation positions: every rule-free schema <= 3 (4) nodes and every depth-5 spine, its example with ONE planted violation at every node (a value of each other JSON kind; an unknown key first / last in every object) in compact and indented layout, plus 14 single-rule breakers (min, max, exclusive, precision, lengths, regex, const, enum, date, or, type references) in 9 nesting contexts: whenever the reference rejects the document and the library reports a position it must be the start of the planted value / key. (e) errors passed through kit.ConvertError (parse errors of every non-JSON string <= 3 symbols in named and unnamed documents, validation errors) keep file, position, code and rendering. Non-trivial = distinct (content, position) with a non-blank line, or distinct (w, c).",
+		Rule:           "(a) rendering: ALL file contents of length 0..7 (thorough 8) over {a,space,tab,LF,CR} x ALL positions inside the file through the public errors.NewDocumentError+SetIndex: Line(), SourceSubString(), Error() must not panic for any content, and for consistently terminated files must equal the reference renderer (1-based line, left-trimmed text, caret column); line-length families around the 200-byte truncation x LF/CR/CRLF x boundary positions; ONE error value rendered at p1, moved to p2 with SetIndex and rendered again must show what a fresh error at p2 shows (all contents <= 5 (6) bytes x all position pairs). (b) parsing positions: BFS over the reference PDA's states (nesting <= 4) and all strings <= 4 symbols: for every live w and symbol c with w.c dead the library's error position must be |w|, for every live non-accepting w the end-of-input error position must be |w|-1. (c) validation positions: every rule-free schema <= 3 (4) nodes and every depth-5 spine, its example with ONE planted violation at every node (a value of each other JSON kind; an unknown key first / last in every object) in compact and indented layout, plus 14 single-rule breakers (min, max, exclusive, precision, lengths, regex, const, enum, date, or, type references) in 9 nesting contexts: whenever the reference rejects the document and the library reports a position it must be the start of the planted value / key. (e) errors passed through kit.ConvertError (parse errors of every non-JSON string <= 3 symbols in named and unnamed documents, validation errors) keep file, position, code and rendering. (f) Check-time errors about a key: objects of 1..3 members with ONE key shortcut that cannot be a key (type integer / array / object / boolean / never added) at every member position, next to ordinary keys and a valid shortcut, at the root / in a property / in an array, LF and CRLF: the error points at the first byte of that key. Non-trivial = distinct (content, position) with a non-blank line, or distinct (w, c).",
 		Run:            run,
 		Replay:         replay,
 		QuickBudget:    70 * time.Second,
@@ -180,6 +180,7 @@ func run(c *ev.Ctx) {
 	validationPositions(c)
 	repositioned(c)
 	converted(c)
+	keyPositions(c)
 }
 
 const ralpha = "a \t\n\r"
@@ -437,6 +438,10 @@ func replay(raw stdjson.RawMessage) (bool, string) {
 	case "parsepos", "eofpos":
 		r := lib.DocCheck(cs.Content, false)
 		return !r.OK && (!r.HasPos || int(r.Pos) != cs.Pos), fmt.Sprintf("document %q: error %s, expected position %d", cs.Content, r, cs.Pos)
+	}
+	if cs.Kind == "keypos" {
+		d := keyposCheck(cs.Content, cs.Pos)
+		return d != "", d
 	}
 	if cs.Kind == "convert" {
 		var cv convCase
